@@ -41,6 +41,8 @@ def make(par):
     if k in ('WordContains', 'WordStartsWith', 'WordEndsWith'):
         aff = sorted(S(a) for a in par['affixes'])
         return getattr(me, k)(aff if len(aff) != 1 or par['aslist'] else aff[0], is_global=par['glob'], is_extensible=ext)
+    if k in ('Text', 'Whitespace', 'NonWhitespace'):
+        return getattr(me, k)(is_optional=ext)
     if k == 'IPv4':
         return me.IPv4(is_extensible=ext)
     if k == 'IPv6':
@@ -83,6 +85,8 @@ def describe(par):
         return describe(par['base'])
     if k == 'Date':
         return 'Date(%r%s)' % ([fmt_str(f) for f in par['fmts']], ', is_extensible=True' if par['ext'] else '')
+    if k in ('Text', 'Whitespace', 'NonWhitespace'):
+        return '%s(is_optional=%s)' % (k, par['ext'])
     return '%s(%s)' % (k, 'is_extensible=True' if par['ext'] else '')
 
 
